@@ -23,8 +23,45 @@ let uniq l = Stdlib.List.sort_uniq compare l
 let index_of x l = let rec go i = function [] -> -1 | y :: r -> if y = x then i else go (i + 1) r in go 0 l
 let starts_with pre s = String.length s >= String.length pre && String.sub s 0 (String.length pre) = pre
 
-let item_s f x a = Printf.sprintf "+%d.%d=%d" (int_of_n f) (int_of_n x) (int_of_n a)
-let item_w f x = Printf.sprintf "-%d.%d" (int_of_n f) (int_of_n x)
+(* prefix ids: the injective numbering of wire prefixes (PipeRaw.pfx_code), as engine pipe. The small numbers of
+   the abstract ops stand for 10.<p>.0.0/16 (even families) and 2001:db8:<p>::/48 (odd families), as
+   harness/src/engines/c16.rs prefix_str has it; they are printed as that number again, any other prefix as
+   <len>/<hex>. Attribute sets: the small numbers of the abstract ops as they are; the numbering of an attribute
+   list from the wire (PipeRaw.attrs_code) as length + FNV-1a of its octets. *)
+let pfx_of_small fam p : BgpModel.pfx =
+  if fam mod 2 = 0 then { BgpModel.p_len = n 16; p_bytes = [n 10; n p] }
+  else { BgpModel.p_len = n 48; p_bytes = [n 0x20; n 0x01; n 0x0d; n 0xb8; n (p lsr 8); n (p land 255)] }
+let pid fam p = PipeRaw.pfx_code (pfx_of_small fam p)
+let pids fam tok = if tok = "-" then [] else Stdlib.List.map (fun t -> pid fam (int_of_string t)) (split_on ',' tok)
+let raw_pfx tok : BgpModel.pfx =
+  match String.split_on_char '/' tok with
+  | [l; h] -> { BgpModel.p_len = n (int_of_string l); p_bytes = (if h = "-" then [] else C04_util.ns_of_hex h) }
+  | _ -> failwith "prefix: <len>/<hex|->"
+let bits_of_n (x : BinNums.coq_N) : bool list =
+  let rec go = function BinNums.Coq_xH -> [true] | BinNums.Coq_xO p -> false :: go p | BinNums.Coq_xI p -> true :: go p in
+  match x with BinNums.N0 -> [] | BinNums.Npos p -> go p
+let rec take8 acc k v l = if k = 8 then (acc, l) else match l with
+    | b :: r -> take8 (acc + (if b then v else 0)) (k + 1) (2 * v) r
+    | [] -> (acc, [])
+(* PipeRaw.bytes_code backwards: little endian octets, closed by a 1 *)
+let rec bytes_of_bits l = match l with
+  | [true] | [] -> []
+  | _ -> let (b, r) = take8 0 0 1 l in b :: bytes_of_bits r
+let small_n (x : BinNums.coq_N) = Stdlib.List.length (bits_of_n x) <= 30
+let attr_tok (a : BinNums.coq_N) : string =
+  if small_n a then string_of_int (int_of_n a)
+  else let raw = bytes_of_bits (bits_of_n a) in Printf.sprintf "n%dh%08x" (Stdlib.List.length raw) (C04_util.fnv raw)
+let pfx_tok f (x : BinNums.coq_N) : string =
+  let (len, rest) = take8 0 0 1 (bits_of_n x) in
+  let bs = bytes_of_bits rest in
+  let f = int_of_n f in
+  match bs with
+  | [10; k] when f mod 2 = 0 && len = 16 -> string_of_int k
+  | [0x20; 0x01; 0x0d; 0xb8; 0; k] when f mod 2 = 1 && len = 48 -> string_of_int k
+  | [] -> Printf.sprintf "%d/-" len
+  | _ -> Printf.sprintf "%d/%s" len (String.concat "" (Stdlib.List.map (Printf.sprintf "%02x") bs))
+let item_s f x a = Printf.sprintf "+%d.%s=%s" (int_of_n f) (pfx_tok f x) (attr_tok a)
+let item_w f x = Printf.sprintf "-%d.%s" (int_of_n f) (pfx_tok f x)
 let item (p : RibModel.payload) =
   let ((f, x), _) = p.RibModel.p_key in
   if p.RibModel.p_active then item_s f x p.RibModel.p_attrs else item_w f x
@@ -106,7 +143,9 @@ let run_case (line : string) : string =
                 let items = match u with
                   | BmpModel.UEor _ -> []
                   | BmpModel.URoutes (af, ann, a, wf, wd) ->
-                      Stdlib.List.map (fun x -> item_w wf x) wd @ Stdlib.List.map (fun x -> item_s af x a) ann in
+                      Stdlib.List.map (fun x -> item_w wf x) wd @ Stdlib.List.map (fun x -> item_s af x a) ann
+                  | BmpModel.UGen (_, _, _, ann, a, wd) ->
+                      Stdlib.List.map (fun (f, x) -> item_w f x) wd @ Stdlib.List.map (fun (f, x) -> item_s f x a) ann in
                 (* an UPDATE without routes leaves as an empty Bulk, which names nobody *)
                 if items = [] then ["u::"] else ["u:" ^ pname p ^ ":" ^ join "," items]
             | RState (p, o, nw) when int_of_n o = 6 && int_of_n nw = 1 ->
@@ -182,21 +221,24 @@ let run_case (line : string) : string =
         let es = if t 3 = "-" then [] else
             Stdlib.List.map (fun e -> match String.split_on_char ':' e with
                 | [a; b] -> (n (int_of_string a), n (int_of_string b)) | _ -> failwith "T entry") (split_on ',' (t 3)) in
-        add (RRib (n (i 1), n (i 2), es))
-    | "M" -> add (RMsg (wire_peer (i 1) (i 2), BUpdate (BmpModel.URoutes (n (i 3 mod 2), plist (t 5), n (i 4), n (i 6 mod 2), plist (t 7)))))
+        add (RRib (n (i 1), pid (i 1) (i 2), es))
+    | "M" -> add (RMsg (wire_peer (i 1) (i 2), BUpdate (BmpModel.URoutes (n (i 3 mod 2), pids (i 3 mod 2) (t 5), n (i 4), n (i 6 mod 2), pids (i 6 mod 2) (t 7)))))
+    (* from the file: MB v p <hex> = the octets of the BGP message inside the record, as C04's decoder reads them *)
+    | "MB" -> add (MrtRaw.raw_rec (wire_peer (i 1) (i 2)) (C04_util.ns_of_hex (t 3)))
     | "K" -> add (RMsg (wire_peer (i 1) (i 2), BSkip))
     | "S" -> add (RState (wire_peer (i 1) (i 2), n (i 3), n (i 4)))
     | "N" -> add ROther
     | "W" -> barrier ()
-    | "Q" ->
+    | "Q" | "QX" ->
         barrier ();
-        let af = n (i 1) and pfx = n (i 2) in
+        let af = n (i 1) in
+        let pfx = if Stdlib.List.hd toks = "Q" then pid (i 1) (i 2) else PipeRaw.pfx_code (raw_pfx (t 2)) in
         let ml = RibModel.rib_query !rib af pfx in
         let named = Stdlib.List.map (fun ((id, s), a) -> (peer_of !reg id, id, s, a)) ml in
-        let tok p s a = Printf.sprintf "%s=%s%d" p (if s then "A" else "W") (int_of_n a) in
+        let tok p s a = Printf.sprintf "%s=%s%s" p (if s then "A" else "W") (attr_tok a) in
         let mtoks = Stdlib.List.sort compare (Stdlib.List.map (fun (p, id, s, a) ->
             tok (match p with Some p -> pname p | None -> "?" ^ string_of_int (int_of_n id)) s a) named) in
-        let stoks = Stdlib.List.sort compare (Stdlib.List.map (fun ((p, s), a) -> tok (pname p) s a) (i_entries !ideal af pfx)) in
+        let stoks = Stdlib.List.sort compare (Stdlib.List.map (fun ((p, s), a) -> tok (pname p) s a) (i_query !ideal af pfx)) in
         let is_tainted = Stdlib.List.exists (fun (p, _, _, _) -> match p with Some p -> Stdlib.List.mem p !tainted | None -> false) named in
         let mt = if is_tainted then "*" else "q:" ^ join "," mtoks and st = "q:" ^ join "," stoks in
         mo := mt :: !mo; so := st :: !so;
